@@ -65,11 +65,18 @@ CLAIM = dict(
          "(cached_module_is_context_free, uncached_import_has_extra). A module's attributes are exactly the public names "
          "whose current top-level binding is a set / block set / macro, with that value, for every order of assignments and "
          "imports (module_exports). ignore missing skips the statement iff nothing named exists and changes nothing else "
-         "(ignore_missing_only_missing, ignore_missing_keeps_everything_else); a list selects the first entry that exists "
+         "(ignore_missing_only_missing, ignore_missing_keeps_everything_else), and it guards the lookup only: once the named "
+         "template is found the statement does exactly what rendering it does, any exception raised while it renders — a "
+         "TemplateNotFound of a template it includes, imports or extends included — comes out with the flag as without it "
+         "(ignore_missing_guards_lookup_only, ignore_missing_statement); a list selects the first entry that exists "
          "(select_first_existing). Tie: real new_context / get_all / get_exported / Context.derived / "
          "_get_default_module(_async) / include resolution against the primitives; the calls emitted for every "
-         "include/import of every generated template and the keys of their dump_local_context dict against the model; "
-         "output of render, generate, render_async, generate_async, make_module(_async), .module for the three F16 replays, "
+         "include/import of every generated template, the keys of their dump_local_context dict and the try statement around "
+         "every include lookup (what the try body holds, what is caught, where the target renders) against the model; "
+         "output of render, generate, render_async, generate_async (with the text yielded before an exception), "
+         "make_module(_async), .module for the three F16 replays, 96 sets in which an existing ignore-missing target fails "
+         "while rendering (nested missing include/list/import/from/extends, UndefinedError also under StrictUndefined, "
+         "ZeroDivisionError, depth 1-2, name/list/variable target, with/without context), "
          "an exhaustive small scope (statement kind x context flag x ignore missing x 21 places where the local is defined "
          "x shadowing pattern; every sequence of <=3 top-level binding events of a module) and random acyclic template sets "
          "(loops, macros, with, call blocks, blocks incl. scoped, nested imports, aliases colliding with assignments, name "
@@ -101,6 +108,11 @@ TVARS = ["tva", "tvb", "tvu"]
 
 def q(s):
     return "'" + s + "'"
+
+
+# a statement that raises while the template renders: what is written, and the exception class it raises
+FAIL_SRC = {"undefined-call": "{{ zz9() }}", "strict-undefined": "{{ zz9 }}", "zero-division": "{{ 1 // 0 }}"}
+FAIL_CLASS = {"undefined-call": "UndefinedError", "strict-undefined": "UndefinedError", "zero-division": "ZeroDivisionError"}
 
 
 def target_src(t):
@@ -163,6 +175,10 @@ def stmt_src(s):
         return "(" + "".join(" %s={{ %s|default('%s') }}" % (n, n, MISSING) for n in s[1]) + ")"
     if k == "block":
         return "{%% block %s%s %%}%s{%% endblock %%}" % (s[1], " scoped" if s[2] else "", src_of(s[3]))
+    if k == "extends":
+        return "{%% extends %s %%}" % target_src(s[1])
+    if k == "fail":
+        return FAIL_SRC[s[1]]
     raise ValueError(k)
 
 
@@ -210,6 +226,10 @@ def stmt_sx(s):
         return [Atom("nameprobe"), list(s[1])]
     if k == "block":
         return [Atom("block"), s[1], bool(s[2]), body_sx(s[3])]
+    if k == "extends":
+        return [Atom("extends"), [Atom(s[1][0]), s[1][1]]]
+    if k == "fail":
+        return [Atom("fail"), FAIL_CLASS[s[1]]]
     raise ValueError(k)
 
 
@@ -262,8 +282,8 @@ def fill_probes(body, names):
 class World:
     """envg: dict; templates: list of dict(name, ok, tplg, body); vars: dict name -> ('s', v) | ('t', template name)"""
 
-    def __init__(self, envg, templates, vars, entry="main"):
-        self.envg, self.templates, self.vars, self.entry = envg, templates, vars, entry
+    def __init__(self, envg, templates, vars, entry="main", strict=False):
+        self.envg, self.templates, self.vars, self.entry, self.strict = envg, templates, vars, entry, strict
 
     def finish(self, pool=POOL):
         for t in self.templates:
@@ -286,7 +306,7 @@ class World:
     def describe(self):
         return {"env_globals": self.envg, "template_globals": {t["name"]: t["tplg"] for t in self.templates if t["tplg"]},
                 "render_vars": {k: (v[1] if v[0] == "s" else f"<Template {v[1]}>") for k, v in self.vars.items()},
-                "templates": self.sources(), "entry": self.entry}
+                "templates": self.sources(), "entry": self.entry, "strict_undefined": self.strict}
 
 
 # ------------------------------------------------------------------------------------------------------------------
@@ -314,7 +334,8 @@ def shown(jinja2, v):
 
 
 def make_env(jinja2, world, is_async):
-    env = jinja2.Environment(loader=jinja2.DictLoader(world.sources()), enable_async=is_async)
+    env = jinja2.Environment(loader=jinja2.DictLoader(world.sources()), enable_async=is_async,
+                             undefined=jinja2.StrictUndefined if world.strict else jinja2.Undefined)
     env.globals.update(world.envg)
     for t in world.templates:       # "loaded with globals": get_template(name, globals=…) before anything renders
         if t["tplg"] and t["ok"]:
@@ -346,13 +367,26 @@ class Real:
             if flavour == "render":
                 return ("out", t.render(**data), None)
             if flavour == "generate":
-                return ("out", "".join(t.generate(**data)), None)
+                pieces = []
+                try:
+                    for x in t.generate(**data):
+                        pieces.append(x)
+                except Exception as e:  # noqa
+                    return ("err", type(e).__name__, "".join(pieces))
+                return ("out", "".join(pieces), None)
             if flavour == "render_async":
                 return ("out", arun(t.render_async(**data)), None)
             if flavour == "generate_async":
+                pieces = []
+
                 async def collect():
-                    return "".join([x async for x in t.generate_async(**data)])
-                return ("out", arun(collect()), None)
+                    async for x in t.generate_async(**data):
+                        pieces.append(x)
+                try:
+                    arun(collect())
+                except Exception as e:  # noqa
+                    return ("err", type(e).__name__, "".join(pieces))
+                return ("out", "".join(pieces), None)
             if flavour == "make_module":
                 m = t.make_module(data)
             elif flavour == "make_module_async":
@@ -374,7 +408,7 @@ def canon_reply(part):
     if part[0] == "out":
         return ("out", part[1], sorted((k, v) for k, v in part[2]), [str(x) for x in part[3]])
     if part[0] == "err":
-        return ("err", str(part[1]))
+        return ("err", str(part[1]), part[2] if len(part) > 2 else "")
     return ("oom", part[1])
 
 
@@ -538,6 +572,42 @@ def faces_scope():
             dict(name="main", ok=True, tplg={"g": "G"}, body=[("block", "b", True, list(use)),
                                                              ("for", "i", ["1"], [("block", "c", True, list(use))])]),
             dict(name="lib", ok=True, tplg={}, body=list(SHOW_LIB))], {}).finish(["g", "u"])
+
+
+GUARD_FAILS = ["include", "include-list", "import", "from", "extends", "undefined-call", "strict-undefined", "zero-division"]
+
+
+def failing_stmt(kind):
+    return {
+        "include": [("include", [("lit", "nope")], False, True, False, False)],
+        "include-list": [("include", [("lit", "nope"), ("lit", "nope2")], True, True, False, False)],
+        "import": [("import", ("lit", "nope"), "a1", False, False)],
+        "from": [("from", ("lit", "nope"), [("show", "sh0")], False, False)],
+        "extends": [("extends", ("lit", "nope"))],
+    }.get(kind) or [("fail", kind)]
+
+
+def guard_scope():
+    """`ignore missing` guards the lookup only: an EXISTING target that fails while it renders (hard include / import /
+    from-import / extends of a missing name, TemplatesNotFound from a list, UndefinedError, ZeroDivisionError), directly
+    or one include deeper, text before and after; the exception must come out of the ignore-missing include"""
+    for fail in GUARD_FAILS:
+        for depth in (1, 2):
+            for form in ("name", "list", "var"):
+                for with_ctx in (True, False):
+                    targets = {"name": [("lit", "partial")], "list": [("lit", "nope"), ("lit", "partial")],
+                               "var": [("var", "tva")]}[form]
+                    main = [("text", "["), ("include", targets, form == "list", with_ctx, True, not with_ctx), ("text", "]END")]
+                    inner = [("text", "I1|")] + failing_stmt(fail) + [("text", "|I2")]
+                    if depth == 1:
+                        tpls = [("partial", [("text", "P1|")] + failing_stmt(fail) + [("text", "|P2")])]
+                    else:       # the failing template is itself reached through an ignore-missing include
+                        tpls = [("partial", [("text", "P1|"), ("include", [("lit", "inner")], False, True, True, False),
+                                             ("text", "|P2")]), ("inner", inner)]
+                    w = World({}, [dict(name="main", ok=True, tplg={}, body=main)] +
+                              [dict(name=n, ok=True, tplg={}, body=b) for n, b in tpls],
+                              {"tva": ("s", "partial")}, strict=(fail == "strict-undefined"))
+                    yield ("guard", (fail, depth, form, with_ctx)), w
 
 
 class TplGen:
@@ -1037,6 +1107,8 @@ def key_for(tag, world_case, flavour):
         return f"C05:module-exports:{flavour}"
     if tag[0] == "face":
         return tag[1][0]
+    if tag[0] == "guard":
+        return f"C05:ignore-missing:swallows-error-inside-target:{tag[1][0]}"
     return f"C05:random:{flavour}"
 
 
@@ -1055,8 +1127,8 @@ def check_world(jinja2, res, tag, world, flavours, stats, replies_by_mode):
         with_exports = got[2] is not None
 
         def same(model):
-            if model[0] == "err":
-                return got[0] == "err" and got[1] == model[1]
+            if model[0] == "err":     # generate / generate_async also show the text produced before the exception
+                return got[0] == "err" and got[1] == model[1] and (got[2] is None or got[2] == model[2])
             if model[0] != "out" or got[0] != "out" or got[1] != model[1]:
                 return False
             return not with_exports or got[2] == model[2]
@@ -1065,9 +1137,10 @@ def check_world(jinja2, res, tag, world, flavours, stats, replies_by_mode):
             stats["errors"][impl[1]] = stats["errors"].get(impl[1], 0) + 1
         if same(impl):
             if impl != spec and not (impl[0] == "out" and spec[0] == "out" and impl[1] == spec[1] and
-                                     (not with_exports or impl[2] == spec[2])):
+                                     (not with_exports or impl[2] == spec[2])) and not (
+                    impl[0] == "err" and spec[0] == "err" and impl[:2] == spec[:2] and got[2] is None):
                 notes = impl[3] if impl[0] == "out" else []
-                keys = list(notes) or ([F16B_KEY] if impl == ("err", "KeyError") else ["C05:model-differs-from-documentation"])
+                keys = list(notes) or ([F16B_KEY] if impl[:2] == ("err", "KeyError") else ["C05:model-differs-from-documentation"])
                 stats["divergent"] += 1
                 for k in keys:
                     res.violate(k, f"{flavour}: the code prints {got[1]!r} (as transcribed); the documentation implies "
@@ -1089,6 +1162,7 @@ def run(ctx, res):
     unit_counts = run_unit(ctx, res, jinja2)
 
     cases = list(faces_scope())
+    cases += list(guard_scope())
     cases += list(small_scope(ctx))
     cases += list(export_scope(ctx, ctx.rng("exports")))
     n_small = len(cases)
@@ -1106,6 +1180,8 @@ def run(ctx, res):
         by_mode = {m: replies[3 * ci + j] for j, m in enumerate(("render", "module-vars", "module"))}
         if tag[0] == "face":
             flavours = ["render_async", "generate_async"] if tag[1][1] else ["render", "generate"]
+        elif tag[0] == "guard":
+            flavours = ["render", "generate", "render_async", "generate_async"]
         elif tag[0] == "exports":
             flavours = ["make_module", "module", "make_module_async"] if w.entry == "lib" else \
                 (["render", "render_async"] if not ctx.quick else [["render"], ["render_async"]][ci % 2])
@@ -1125,7 +1201,8 @@ def run(ctx, res):
     res.coverage.update({
         "evaluations": stats["evaluations"],
         "distinct_nontrivial": len(distinct),
-        "rule": ("small scope (exhaustive): statement kind (include / include of a list / import-as / from-import) x context flag "
+        "rule": ("the three F16 replays; ignore-missing guard: 8 failures inside an existing target x depth 1-2 x name/list/variable "
+                 "target x with/without context; small scope (exhaustive): statement kind (include / include of a list / import-as / from-import) x context flag "
                  "(default, explicit with, explicit without) x ignore missing x where the local is defined (21 places: root set, "
                  "block set, taken/untaken if, set after the statement, loop variable, set in a loop, macro parameter given / not "
                  "given, set in a macro, set after the macro definition, with variable, set in a with, call-block parameter, loop "
@@ -1166,10 +1243,12 @@ def count_kinds(body, kinds):
 # L-code: what the compiler emits for include / import
 # ------------------------------------------------------------------------------------------------------------------
 
-def emitted_calls(jinja2, src, is_async):
+def compile_raw(jinja2, src, is_async):
+    return jinja2.Environment(enable_async=is_async).compile(src, name="t", raw=True)
+
+
+def emitted_calls(code):
     """[(kind, function, shared-args as source, sorted locals keys or None)] in source order"""
-    env = jinja2.Environment(enable_async=is_async)
-    code = env.compile(src, name="t", raw=True)
     tree = ast.parse(code)
     found = []
     for node in ast.walk(tree):
@@ -1190,6 +1269,71 @@ def emitted_calls(jinja2, src, is_async):
             if isinstance(a, ast.Dict):
                 keys = sorted(k.value for k in a.keys)
         out.append((kind, f, shape, keys))
+    return out
+
+
+LOOKUPS = ("get_template", "select_template", "get_or_select_template")
+RENDERS = ("new_context", "_get_default_module", "_get_default_module_async")
+
+
+def emitted_guards(code):
+    """for every `template = environment.<lookup>(…)` an include compiles to, in the order of the generated module: the lookup
+    function and the shape of the enclosing try statement: ('plain',) or
+    ('try', [what the try body holds], [(caught class, [handler statements])], where the target is rendered, has finally)"""
+    tree = ast.parse(code)
+    out = []
+
+    def renders(stmts):
+        return any(isinstance(n, ast.Call) and isinstance(n.func, ast.Attribute) and n.func.attr in RENDERS
+                   for st in stmts for n in ast.walk(st))
+
+    def visit(node, parent, field):
+        if isinstance(node, ast.Assign) and len(node.targets) == 1 and isinstance(node.targets[0], ast.Name) \
+                and node.targets[0].id == "template" and isinstance(node.value, ast.Call) \
+                and isinstance(node.value.func, ast.Attribute) and node.value.func.attr in LOOKUPS:
+            if isinstance(parent, ast.Try) and field == "body":
+                shape = ("try", ["lookup" if st is node else type(st).__name__ for st in parent.body],
+                         [(ast.unparse(h.type) if h.type is not None else "BARE", [type(x).__name__ for x in h.body])
+                          for h in parent.handlers],
+                         "else" if renders(parent.orelse) else "body" if renders(parent.body) else "elsewhere",
+                         bool(parent.finalbody))
+            else:
+                shape = ("plain",)
+            out.append((node.lineno, node.value.func.attr, shape))
+        for f, value in ast.iter_fields(node):
+            if isinstance(value, list):
+                for child in value:
+                    if isinstance(child, ast.AST):
+                        visit(child, node, f)
+            elif isinstance(value, ast.AST):
+                visit(value, node, f)
+    visit(tree, None, None)
+    return [(f, shape) for _, f, shape in sorted(out)]
+
+
+def expected_guards(body, model_guard):
+    """(lookup function, try shape) the model stands for, per include, in the order of the generated module"""
+    blocks, out = [], []
+
+    def walk(body):
+        for s in body:
+            k = s[0]
+            if k == "include":
+                f = "select_template" if s[2] else "get_template" if s[1][0][0] == "lit" else "get_or_select_template"
+                out.append((f, model_guard if s[4] else ("plain",)))
+            elif k == "if":
+                walk(s[2])
+            elif k in ("for", "with", "macro"):
+                walk(s[3])
+            elif k == "callblock":
+                walk(s[4])
+            elif k == "block":
+                blocks.append(s[3])
+    walk(body)
+    i = 0
+    while i < len(blocks):
+        walk(blocks[i])
+        i += 1
     return out
 
 
@@ -1244,11 +1388,27 @@ def run_lcode(ctx, res, jinja2, cases):
             reqs.append([Atom("c05-locals"), body_sx(t["body"])])
             metas.append((tag, t, src))
     replies = core.driver_batch(reqs)
+    g = core.driver_batch([[Atom("c05-guard")]])[0][1]
+    model_guard = ("try", [str(x) for x in g[0]], [(str(h[0]), [str(x) for x in h[1]]) for h in g[1]], str(g[2]), bool(g[3]))
+    guards = 0
     for (tag, t, src), rep in zip(metas, replies):
         templates += 1
         want_keys = [sorted(str(x) for x in ks) for ks in rep[1]]
         for is_async in ((templates % 2 == 0,) if ctx.quick else (False, True)):
-            got = emitted_calls(jinja2, src, is_async)
+            code = compile_raw(jinja2, src, is_async)
+            gg, wg = emitted_guards(code), expected_guards(t["body"], model_guard)
+            guards += len(gg)
+            if gg != wg:
+                bad = next((i for i, (a, b) in enumerate(zip(gg, wg)) if a != b), min(len(gg), len(wg)))
+                res.violate("C05:lcode:include-guard",
+                            f"{'async' if is_async else 'sync'} code for {src!r}: include #{bad} compiles to "
+                            f"{gg[bad] if bad < len(gg) else None}, the model (includeStmt / includeGuard: only the lookup is "
+                            f"guarded, only TemplateNotFound is caught, the target renders in the else arm) stands for "
+                            f"{wg[bad] if bad < len(wg) else None}",
+                            {"layer": "L-code", "src": src, "async": is_async, "emitted": repr(gg), "modelled": repr(wg),
+                             "theorems": "ignore_missing_guards_lookup_only, ignore_missing_only_missing, "
+                                         "ignore_missing_keeps_everything_else"}, no_input=True)
+            got = emitted_calls(code)
             want = expected_calls(t["body"], is_async)
             total += len(got)
             g2 = [(k, f, shape) for k, f, shape, _ in got]
@@ -1263,7 +1423,7 @@ def run_lcode(ctx, res, jinja2, cases):
                 res.violate("C05:lcode:locals-keys", f"dump_local_context keys for {src!r}: emitted {gk}, model {wk}",
                             {"layer": "L-code", "src": src, "async": is_async, "emitted": repr(gk), "modelled": repr(wk)},
                             no_input=True)
-    return {"templates": templates, "statements": total}
+    return {"templates": templates, "statements": total, "include_guards": guards}
 
 
 def replay(ctx, case):
@@ -1272,7 +1432,8 @@ def replay(ctx, case):
     c = case["case"]
     if "templates" not in c:
         return c
-    env = jinja2.Environment(loader=jinja2.DictLoader(c["templates"]), enable_async=c.get("flavour", "").endswith("async"))
+    env = jinja2.Environment(loader=jinja2.DictLoader(c["templates"]), enable_async=c.get("flavour", "").endswith("async"),
+                             undefined=jinja2.StrictUndefined if c.get("strict_undefined") else jinja2.Undefined)
     env.globals.update(c.get("env_globals", {}))
     for name, g in c.get("template_globals", {}).items():
         env.get_template(name, globals=dict(g))
